@@ -17,6 +17,8 @@ func checkC01(c *Ctx, r *Report) {
 	c01R1(c, r)
 	c01R2(c, r)
 	c01R3(c, r)
+	borrow(c, r, checkC03, "C03.R1.total-limit", "C01.R1.name-limit", 1, "packDomainName accepts every name of up to 255 wire octets (the same limit the decoder applies)", func(k string) bool { return k == "packDomainName" }, "a record whose name has exactly 255 octets unpacks but cannot be packed again: the message is not reproduced")
+	borrow(c, r, c08LenForm, "C08.R1.len-form", "C01.R1.len-form", 70, "the length method of every type predicts what its packer writes (Pack sizes its buffer from it)", nil, "Pack runs out of buffer for such a record and fails with an overflow error although the record is well-formed")
 	c01R4(c, r)
 	c01R5(c, r)
 	c01R6(c, r)
